@@ -766,6 +766,12 @@ def _arrays_case(r, fam):
     pB = _params(r, fam)
     while fam == "nbinom" and (("mu" in pA) != ("mu" in pB)):
         pB = _params(r, fam)
+    if len(pA) > 1 and r.random() < 0.5:
+        # the two parameter sets differ in ONE parameter only (a table keyed on part of the parameters would go stale here)
+        k = r.choice(sorted(pA))
+        cand = dict(pA); cand[k] = pB[k]
+        if cand != pA and (fam != "unif" or cand["min"] + 0.05 < cand["max"]):
+            pB = cand
     sets = []
     for p in (pA, pB):
         xs = []
@@ -801,7 +807,8 @@ def _arrays_case(r, fam):
         pos = sorted(r.randrange(len(ops) + 1) for _ in blk)
         for off, (p_, op) in enumerate(zip(pos, blk)):
             ops.insert(p_ + off, op)
-    return {"kind": "arrays", "family": fam, "params": [pA, pB], "xs": sets, "us": us, "x_form": x_form, "par_form": par_form, "ops": ops}
+    return {"kind": "arrays", "family": fam, "params": [pA, pB], "xs": sets, "us": us, "x_form": x_form, "par_form": par_form, "ops": ops,
+            "scribble": r.random() < 0.3}
 
 
 def _discrete_quantile(fam, p, target):
@@ -819,7 +826,7 @@ def _run_arrays(case):
     from pygom.utilR import distn
     mpmath.mp.dps = 30
     fam, psets = case["family"], case["params"]
-    tags = ["arrays:" + fam, "x-form:" + case["x_form"], "par-form:" + case["par_form"]]
+    tags = ["arrays:" + fam, "x-form:" + case["x_form"], "par-form:" + case["par_form"]] + (["caller-overwrites-results"] if case.get("scribble") else [])
     viol, seen = [], set()
     detail = json.dumps(case)
 
@@ -950,8 +957,11 @@ def _run_arrays(case):
                 violation(name, "raises-after-earlier-success", "%s raised %s: %s although the same kind of call succeeded earlier in the session" % (label, type(exc).__name__, str(exc)[:160]))
             continue
         used_ok.add(name)
-        kept.append((label, name, res, copy.deepcopy(res)))
-        out = np.asarray(res, float).ravel()
+        out = np.array(res, float).ravel()
+        if case.get("scribble") and isinstance(res, np.ndarray) and res.flags.writeable:
+            res[...] = -12345.0        # a returned array is the caller's: overwriting it must not reach later calls (judged by their values)
+        else:
+            kept.append((label, name, res, copy.deepcopy(res)))
         if out.shape != (n,):
             all_returned = False
             violation(name, "vector-shape", "%s returned shape %s for %d arguments" % (label, np.shape(res), n))
@@ -1041,7 +1051,7 @@ def _seedhist_case(r, force=None):
             noise.append({"family": f, "params": pars[f], "n": r.choice([1, n_many]), "seed": {"none": None, "true": "True", "state": {"state": r.randint(0, 10 ** 6)}}[kind]})
     for x in noise:
         calls.insert(r.randrange(1, len(calls)), x)
-    return {"kind": "seedhist", "calls": calls}
+    return {"kind": "seedhist", "calls": calls, "scribble": r.random() < 0.4}
 
 
 def _run_seedhist(case):
@@ -1087,7 +1097,9 @@ def _run_seedhist(case):
             all_ok = False
             violation("r" + fam, "stub" if a is None else "shape", "%s returned %r" % (label, None if a is None else np.shape(a)))
             continue
-        a = np.asarray(a).copy()
+        res, a = a, np.asarray(a).copy()
+        if case.get("scribble") and isinstance(res, np.ndarray) and res.flags.writeable:
+            res[...] = 0               # the block of draws is the caller's to overwrite; a later call must not hand it out again
         key = json.dumps([fam, p, n, sd], sort_keys=True)
         if key in firsts:
             if last_key != key:
